@@ -8,7 +8,13 @@ W=/tmp/wt-matrix.$$
 git -C /repo worktree add -q --detach $W HEAD || exit 2
 # the checks are built from a snapshot of /verif taken now, so that the sources can be edited while the matrix runs
 SNAP=/tmp/verif-snap.$$
-mkdir -p $SNAP && rsync -a --exclude .cache --exclude .git --exclude seeded --exclude evidence --exclude replays --exclude .bin /verif/ $SNAP/
+mkdir -p $SNAP
+if [ -n "${SNAP_FROM_HEAD:-}" ]; then
+  # the committed state (the verdicts a seeding round gets before anything is strengthened)
+  git -C /verif archive HEAD -- mc bin known_findings.json properties.jsonl | tar -x -C $SNAP
+else
+  rsync -a --exclude .cache --exclude .git --exclude seeded --exclude evidence --exclude replays --exclude .bin /verif/ $SNAP/
+fi
 export GOCACHE=/verif/.cache/go-build
 for d in $(ls seeded | grep -E '^C[0-9]+-[a-z]$' | grep -E -- "$RE"); do
   props=$(echo $d | cut -d- -f1)
